@@ -112,10 +112,13 @@ prop('C10', 'proof',
      'Lean 4 bound theorems + sanitizer runs on boundary sessions', '§6 C10')
 
 prop('C12', 'proof',
-     'theorems about the KPK table the build produced (Props/C12.lean; certificate checking in the Lean kernel, see DESIGN §6 C12 for the part discharged) and an EXHAUSTIVE correspondence: all 662,704 '
-     'legal KPK positions (both pawn colours, both sides to move, all files) through the real evaluation path vs the model (normalize/index/bit of the re-extracted table) vs an independent rules-level '
-     'retrograde solver', '"safe promotion (Q or R, not capturable, not stalemating) is a win" is taken from chess theory; ' + TIE,
-     'Lean 4 certificate theorems + exhaustive enumeration against an independent solver', '§6 C12')
+     'PROVED in the Lean kernel (Props/C12.lean: C12_kpk, C12_mirror): for every legal KPK position — all 8 files, both colours, both sides to move — the engine\'s answer, computed from the table the CURRENT build '
+     'produced (re-extracted on every run) through normalize/index/bit, is "win" exactly when the pawn\'s side can force a win under the rules (least fixpoint Wins of Spec/KPK.lean). Method: certificate = table + '
+     'committed rank data; two local conditions per position, evaluated by the kernel at all 2*64*48*64 tuples in 96 chunks (decide +kernel, no native_decide, no compiled code); soundness by induction on the rank, '
+     'completeness by induction on the derivation of Wins. Tie: EXHAUSTIVE correspondence over all 662,704 legal positions: real evaluation path vs model lookup vs an independent retrograde solver',
+     '"safe promotion (Q or R, not capturable, not stalemating) is a win" is taken from chess theory (inside Spec.KPK.promotionWins); ' + TIE,
+     'Lean 4 kernel-checked certificate (96 x 4096 positions) + exhaustive enumeration against an independent solver', '§12.4 C12')
+
 prop('C13', 'proof',
      'the evaluator (score.cpp + endgame.cpp, ~600 lines) transcribed into Lean with its explicit per-colour choices; mirror-law theorems in Props/C13.lean (see DESIGN §6 C13 for the part proved); '
      'correspondence: model vs C++ on every evaluation of corpus/lab/game positions and random placements of every specialised endgame class, and the symmetry property evaluated directly on the C++ '
